@@ -298,6 +298,10 @@ pub fn replay(section: &str, case: &Value) -> Result<(), String> {
     if section.starts_with("after-history") {
         return super::replay_history(case, check);
     }
+    if section.starts_with("capacity") {
+        let rc = c03::measure_row_cap_bits(16).min(c03::measure_row_cap_bits(18));
+        return if cfg!(feature = "batch") && rc < 2 { Err(format!("with batching enabled a 300-pixel run was sent in bursts of {} pixel(s)", rc)) } else { Ok(()) };
+    }
     let c = de::<ProgCase>(case)?;
     if section.starts_with("giant-fills") || c.cfg.w as u64 * c.cfg.h as u64 > (1 << 26) {
         return check_giant(&c, &mut CaseInfo::default());
